@@ -47,7 +47,19 @@ def install():
         x0 = np.atleast_1d(np.asarray(x0, dtype=object))
         x = x0
         for _ in range(_STATE["probes"]):
-            x = stubs_opt.fresh_vector(len(x0), bounds, "probe")
+            pinned = _STATE.get("pinned")
+            if pinned is not None and len(x0) == 1:
+                # a radial clamp's parameter is an arc length: the demon turns the leader by one of the pinned angles
+                # (rational cosine and sine), chosen by the solver, so that the rotation link's arccos/rotation stay exact
+                stubs_opt._counter["n"] += 1
+                names = sorted(pinned["pins"])
+                pin = names[sx.choice(f"pin{stubs_opt._counter['n']}", len(names))]
+                m, c, sn = pinned["pins"][pin]
+                theta = sx.angle(f"turn{stubs_opt._counter['n']}_{pin}", m, c, sn)
+                pinned["picked"].append((theta, c, sn))
+                x = np.array([theta * pinned["radius"]], dtype=object)
+            else:
+                x = stubs_opt.fresh_vector(len(x0), bounds, "probe")
             _STATE["allow_degenerate"] = True
             try:
                 fun(x)
@@ -141,11 +153,24 @@ def run_sketch(sx, name, scenario, iterations=1, probes=1):
 def _run_sketch(sx, name, scenario, iterations, probes, jitter):
     from symx import stubs_opt
     stubs_opt.reset()
-    _STATE.update(probes=probes, allow_degenerate=False, nq=0)
+    _STATE.update(probes=probes, allow_degenerate=False, nq=0, pinned=None)
     base, quads = c15.MAPS[name]()
     P0 = c15._sym_positions(sx, base, 2)
     if jitter is not None:
         P0 = np.array([[p[0] + jitter[i][0], p[1] + jitter[i][1], p[2]] for i, p in enumerate(P0)])
+    relation = None
+    if scenario == "radial+rotlink" and jitter is None:
+        # concrete uneven positions: what is quantified here is the optimizer's call sequence (which pinned turns the
+        # minimiser tries, in which order, with which quality verdicts), not the geometry
+        P0 = sx.arr([[sx.const(Fraction(p[0]) + Fraction((7 * i) % 5 - 2, 20)), sx.const(Fraction(p[1]) + Fraction((3 * i) % 7 - 3, 30)),
+                      sx.const(0)] for i, p in enumerate(base)])
+    if scenario in ("free+symlink", "radial+rotlink"):
+        _b, _nb = c15.topology(quads, 2)
+        _int = [i for i in range(len(base)) if i not in _b]
+        lead_, fol_ = _int[0], _int[-1]
+        if scenario == "free+symlink":
+            # the follower starts as the mirror image of the leader about the plane x = 1.5
+            P0[fol_] = np.array([3 - P0[lead_][0], P0[lead_][1], P0[lead_][2]], dtype=P0.dtype)
     sketch = cb.MappedSketch(P0, quads)
     opt = SketchOptimizer(sketch, report=False)
     boundary, nb = c15.topology(quads, 2)
@@ -161,6 +186,36 @@ def _run_sketch(sx, name, scenario, iterations, probes, jitter):
         clamps[lead] = cb.FreeClamp(P0[lead])
         others = [i for i in range(len(base)) if i != lead][:2]
         links = [(lead, j, cb.TranslationLink(P0[lead], P0[j])) for j in others]
+    elif scenario == "free+symlink":
+        clamps[lead] = cb.FreeClamp(P0[lead])
+        fol = interior[-1]
+        links = [(lead, fol, cb.SymmetryLink(P0[lead], P0[fol], [2, 0, 0], [1.5, -3, 0.5]))]
+        relation = lambda G: [3 - G[lead][0], G[lead][1], G[lead][2]]
+    elif scenario == "radial+rotlink":
+        o = sx.vec(1.5, 1.5, 0)
+        clamps[lead] = cb.RadialClamp(P0[lead], o, [0, 0, 2])
+        fol = interior[-1]
+        links = [(lead, fol, cb.RotationLink(P0[lead], P0[fol], [0, 0, 3], o))]
+        if sx.sym:
+            d = P0[lead] - o
+            from symx.shims import norm_model
+            _STATE["pinned"] = {"radius": norm_model(d), "pins": {"a": (1, Fraction(3, 5), Fraction(4, 5)),
+                                                                  "-a": (1, Fraction(3, 5), Fraction(-4, 5))}, "picked": []}
+
+        def relation(G, clamp=None):
+            c_ = clamps[lead]
+            if sx.sym:
+                cs = (Fraction(1), Fraction(0))
+                for theta, c, sn in _STATE["pinned"]["picked"]:
+                    if not (c_.params[0] - theta * _STATE["pinned"]["radius"]).p:
+                        cs = (c, sn)
+                cc, ss = sx.const(cs[0]), sx.const(cs[1])
+            else:
+                import math
+                r = math.hypot(float(P0[lead][0]) - 1.5, float(P0[lead][1]) - 1.5)
+                cc, ss = math.cos(float(c_.params[0]) / r), math.sin(float(c_.params[0]) / r)
+            dx, dy = P0[fol][0] - 1.5, P0[fol][1] - 1.5
+            return [dx * cc - dy * ss + 1.5, dx * ss + dy * cc + 1.5, P0[fol][2]]
     elif scenario == "two-clamps":
         clamps[lead] = cb.FreeClamp(P0[lead])
         other = interior[1] if len(interior) > 1 else sorted(boundary)[0]
@@ -189,9 +244,12 @@ def _run_sketch(sx, name, scenario, iterations, probes, jitter):
                 conds += [p >= lo, p <= hi]
     sx.prove(sx.all(conds), f"{tag}: every clamped vertex sits at its clamp's position, parameters inside the bounds",
              f"C13:clamp-position:{scenario}")
-    if links:
+    if links and relation is None:
         sx.prove(sx.all([_rows_equal(sx, [G[j]], [G[i] + (P0[j] - P0[i])]) for (i, j, _) in links]),
                  f"{tag}: linked vertices keep their translation to the leader", f"C13:link-relation:{scenario}")
+    elif links:
+        sx.prove(_rows_equal(sx, [G[links[0][1]]], [relation(G)]), f"{tag}: the linked vertex keeps its "
+                 f"{'mirror' if 'sym' in scenario else 'rotation'} relation to the leader", f"C13:link-relation:{scenario}")
     # copy-back
     conds = []
     for q, face in zip(quads, sketch.faces):
@@ -278,8 +336,8 @@ def jobs(tier, seed):
     def add(fn, jobname, **p):
         js.append({"name": jobname, "fn": fn, "params": p, "budget_s": 280 if tier == "quick" else 1500})
 
-    for sc in ("free", "line", "free+2links", "two-clamps"):
-        add("run_sketch", f"sketch|2x2|{sc}", name="2x2" if sc != "two-clamps" else "3x3", scenario=sc)
+    for sc in ("free", "line", "free+2links", "two-clamps", "free+symlink", "radial+rotlink"):
+        add("run_sketch", f"sketch|2x2|{sc}", name="2x2" if sc in ("free", "line", "free+2links") else "3x3", scenario=sc)
     add("run_sketch", "sketch|3x3|free|2 iterations", name="3x3", scenario="free", iterations=2)
     add("run_clamp_step", "clamp-step|2x2", name="2x2")
     add("run_clamp_step", "clamp-step|disk", name="disk")
